@@ -133,3 +133,64 @@ pub proof fn lemma_seq_repr(s: Seq<(Unit, State)>, m: Map<Unit, State>)
         }
     }
 }
+
+/// sum of s_j * udim(u_j, b) over a Powers entry list
+pub open spec fn psum(s: Seq<(Unit, i32)>, b: Unit) -> int
+    decreases s.len()
+{
+    if s.len() == 0 { 0int } else { psum(s.drop_last(), b) + s.last().1 as int * udim(s.last().0, b) }
+}
+
+pub open spec fn pseq_repr(s: Seq<(Unit, i32)>, m: Map<Unit, i32>) -> bool {
+    m.dom().finite() && s.len() == m.dom().len()
+    && (forall|i: int| 0 <= i < s.len() ==> m.contains_key(#[trigger] s[i].0) && m[s[i].0] == s[i].1)
+    && (forall|i: int, j: int| 0 <= i < j < s.len() ==> (#[trigger] s[i]).0 != (#[trigger] s[j]).0)
+}
+
+/// for a list of base units the sum is just the exponent of `b` in the map
+pub proof fn lemma_psum_base(s: Seq<(Unit, i32)>, m: Map<Unit, i32>, b: Unit)
+    requires pseq_repr(s, m), forall|i: int| 0 <= i < s.len() ==> is_base(#[trigger] s[i].0)
+    ensures psum(s, b) == pw_get(m, b)
+    decreases s.len()
+{
+    if s.len() == 0 {
+        assert(m.dom().len() == 0);
+        if m.contains_key(b) { assert(m.dom().contains(b)); assert(m.dom() =~= Set::<Unit>::empty()); }
+    } else {
+        let k = s.last().0;
+        let t = s.drop_last();
+        let mk = m.remove(k);
+        assert(s[s.len() - 1] == s.last());
+        assert(m.contains_key(s[s.len() - 1].0));
+        assert forall|i: int| 0 <= i < t.len() implies mk.contains_key(#[trigger] t[i].0) && mk[t[i].0] == t[i].1 by {
+            assert(t[i] == s[i]);
+            assert(s[i].0 != s[s.len() - 1].0);
+        }
+        assert forall|i: int, j: int| 0 <= i < j < t.len() implies (#[trigger] t[i]).0 != (#[trigger] t[j]).0 by {
+            assert(t[i] == s[i] && t[j] == s[j]);
+        }
+        assert forall|i: int| 0 <= i < t.len() implies is_base(#[trigger] t[i].0) by { assert(t[i] == s[i]); }
+        lemma_psum_base(t, mk, b);
+        assert(is_base(s[s.len() - 1].0));
+    }
+}
+
+/// a base unit with prefix 0 contributes the factor 1 whatever its power
+pub proof fn lemma_base_ent_scale(u: Unit, p: i32)
+    requires is_base(u)
+    ensures ent_scale((u, State { power: p, prefix: 0 })) == 1real
+{
+    lemma_qpow_one(p as int);
+    lemma_zero_mul(0, p as int);
+}
+
+/// an entry with prefix 0 contributes factor^power
+pub proof fn lemma_ent_scale_prefix0(u: Unit, st: State)
+    requires st.prefix == 0
+    ensures ent_scale((u, st)) == qpow(factor_of(u), st.power as int)
+{
+    lemma_zero_mul(st.prefix as int, st.power as int);
+    assert(qpow(10real, 0) == 1real);
+    let x = qpow(factor_of(u), st.power as int);
+    assert(1real * x == x);
+}
